@@ -32,6 +32,7 @@ UDFS = {
     "dbl": lambda x: 2 * x,
     "itonly": lambda x: x - 1,   # registered with supporting_engine_types=(iteration.Engine,)
     "only2": lambda x: x + 2,    # registered in engine "it2" only (no supporting_engine_types restriction)
+    "bitlen": lambda x: x.bit_length(),   # registered nowhere: the iteration engines fall back to the method of the value
     "pdiv": lambda x: 6 // x,    # *partial*: raises ZeroDivisionError on 0; iteration engines only (like itonly)
 }
 
@@ -45,7 +46,7 @@ def expr_cols(e) -> set[str]:
         return set()
     if k == "neg":
         return expr_cols(e[1])
-    if k in ("udf", "udfu"):
+    if k in ("udf", "udfu", "udfa"):
         return expr_cols(e[2])
     return expr_cols(e[1]) | expr_cols(e[2])
 
@@ -79,7 +80,7 @@ def expr_udfs(e) -> set[str]:
         return set()
     if k == "neg":
         return expr_udfs(e[1])
-    if k == "udf":
+    if k in ("udf", "udfa"):
         return {e[1]} | expr_udfs(e[2])
     if k == "udfu":
         return {"u:" + e[1]} | expr_udfs(e[2])       # unrestricted twin: supported by every engine
@@ -120,7 +121,7 @@ def eval_expr(e, row):
         return e[1]
     if k == "neg":
         return -eval_expr(e[1], row)
-    if k in ("udf", "udfu"):
+    if k in ("udf", "udfu", "udfa"):
         return UDFS[e[1]](eval_expr(e[2], row))
     return ARITH[k](eval_expr(e[1], row), eval_expr(e[2], row))
 
@@ -189,10 +190,18 @@ def build_expr(e, tags):
     if k == "udf":
         sup = (iteration.Engine,) if e[1] in ("itonly", "pdiv") else None
         arg = build_expr(e[2], tags)
+        if e[1] == "bitlen":
+            return arg.method("bit_length", dtype=int, supporting_engine_types=(iteration.Engine,))
         if len(repr(e)) % 2:
             # the other documented spelling of the same thing: argument.method(name, ...)
             return arg.method(e[1], dtype=int, supporting_engine_types=sup)
         return ColumnExpression.function(e[1], arg, dtype=int, supporting_engine_types=sup)
+    if k == "udfa":
+        # a function that *declares* every engine type itself; its argument may still be restricted
+        from lsst.daf.relation import sql
+
+        return ColumnExpression.function(e[1], build_expr(e[2], tags), dtype=int,
+                                         supporting_engine_types=(sql.Engine, iteration.Engine))
     if k == "udfu":
         # same name and arguments as the restricted function (hence == and equal hash), but no engine restriction
         return ColumnExpression.function(e[1], build_expr(e[2], tags), dtype=int, supporting_engine_types=None)
@@ -250,6 +259,8 @@ def lib_eval_expr(e, row):
             return args[0] * args[1]
         if n in UDFS:
             return UDFS[n](*args)
+        if n == "bit_length":
+            return args[0].bit_length()
     raise NotImplementedError(f"interp: expression {e!r}")
 
 
